@@ -594,6 +594,9 @@ h("ki8_reset_forgets_header_window_bits", I + "/ki8_entry.rs", "inflate::verif_k
   functions=["State::dispatch (mode Head with windowBits 0)", "inflate::reset", "inflate::reset_keep"],
   bounds="zlib wrapper, windowBits 0 at init, any valid zlib header without FDICT (every CINFO), then inflateReset; then an explicit size and another reset",
   assumptions=STEP_ASSUME)
+h("ki8_copy_refuses_a_borrowed_window", I + "/ki8_entry.rs", "inflate::verif_kani::ki8_entry", ["C02", "C14", "C16"], kernel="KI8", expect_s=60, timeout=900,
+  functions=["inflate::copy (argument/state checks before the allocation)", "Window::clone_to"],
+  bounds="source stream as inflateBackInit leaves it (512-byte caller window), counting allocator that would succeed")
 h("ki8_sync_then_inflate", I + "/ki8_entry.rs", "inflate::verif_kani::ki8_entry", ["C15", "C16"], kernel="KI8", expect_s=60, timeout=900,
   functions=["inflate::sync", "inflate::inflate", "inflate::reset", "State::dispatch (TypeDo, Stored, CopyBlock, Check, Length, Done)"],
   bounds="any running totals < 2^40, concrete marker + final stored block with 2 symbolic data bytes", assumptions=STEP_ASSUME)
@@ -661,7 +664,7 @@ QUICK = {
             "ki8_reset_equals_fresh"],
     "C11": ["kd7_starved_flush_is_completed_by_the_next_call", "kd7_zlib_wrapper", "kd8_quick_sync_n3", "kd1_emitters_one_step"],
     "C13": ["ki5a_head_w1_n2", "ki5a_head_w5_n2", "ki5a_dictid_n3", "ki5a_dictid_n4", "ki5a_dictid_n4_have", "ki5a_set_dictionary", "ki3_get_dictionary_order", "kd7_zlib_wrapper", "kd10_set_dictionary_protocol"],
-    "C14": ["ki8_reset_forgets_header_window_bits", "kd10_reset_equals_fresh", "ki8_reset_equals_fresh", "ka2_deflate_copy_alloc_failure", "kd10c_pending_clone_to",
+    "C14": ["ki8_copy_refuses_a_borrowed_window", "ki8_reset_forgets_header_window_bits", "kd10_reset_equals_fresh", "ki8_reset_equals_fresh", "ka2_deflate_copy_alloc_failure", "kd10c_pending_clone_to",
             "kd10c_symbuf_clone_to", "ki8c_window_clone_to", "kd7_gzip_start_stale_gzindex"],
     "C15": ["ki7_inflate_primed_32_then_fast", "ki7_inflate_copyblock", "ki7_inflate_terminal", "ki5c_copyblock_resume", "ki1_bitreader_refill_model", "ki8_sync",
             "ki8_sync_then_inflate", "kd7_zlib_wrapper"],
